@@ -121,7 +121,8 @@ def check_property(prop, cfg, tier, seed, replay=None):
                 broken.append(dict(what=f"theorem {t}", detail=f"depends on disallowed axioms {sorted(set(ax) - core.ALLOWED_AXIOMS)}"))
             else:
                 discharged.append(t)
-        hits = core.grep_forbidden([os.path.join(core.LEAN, "Zrnt"), os.path.join(core.LEAN, "Proofs")])
+        # the property module's import cone and the compiled driver's import cone (not other properties' work in progress)
+        hits = core.grep_forbidden(core.import_cone(([cfg["module"]] if cfg.get("module") else []) + ["ZModel"]))
         obligations.append("source-grep:no sorry/admit/axiom/native_decide/bv_decide/implemented_by/unsafe")
         if hits:
             broken.append(dict(what="source grep", detail=hits[:20]))
